@@ -230,6 +230,9 @@ def c08_groups(tier, tag='C08'):
                 note='all 2^32 mask values, all valid (t,basebit) symbolic; loop bounded by the word width (complete)'),
           Group(tag + '.lweKeySwitch', 'c08_keyswitch.c', 'h_lweKeySwitch', defines={'H_KEYSWITCH': None}, extract=[(KS, 'lweKeySwitch')])]
     gs += translate_unbounded_groups(tag, tier) + translate_watched_groups(tag, tier)
+    for (T, B) in ([] if not os.environ.get('VERIF_EXPERIMENTAL') else [(8, 2), (2, 3), (1, 1)]):      # experimental: not registered until it proves on the unchanged tree
+        gs.append(Group('%s.LweKeySwitchKey.ctor.unbounded.t=%d.basebit=%d' % (tag, T, B), 'c08_keyswitch.c', 'h_ksctor_unbounded', extract=[('lwekeyswitch.cpp', 'LweKeySwitchKey::LweKeySwitchKey')],
+                        loops=True, defines={'H_KSCTOR_U': None, 'VERIF_T': T, 'VERIF_BASEBIT': B}, timeout=900, instance={'t': T, 'basebit': B, 'n': 'symbolic'}))
     if tier == 'quick':
         lay = [(8, 2), (2, 3), (1, 1), (3, 5), (15, 2), (31, 1), (1, 31)]
         ns = [1, 2, 3]
@@ -607,7 +610,7 @@ def c03_groups(tier, tag='C03'):
     gs.append(Group(tag + '.tGswSymEncrypt+tGswEncryptB', 'c03_encrypt.c', 'h_tGswWrappers', extract=[(TG, 'tGswSymEncrypt'), (TG, 'tGswEncryptB')], defines={'H_TGSWWRAP': None}))
     for (K, L) in ([(1, 2), (2, 3)] if tier == 'quick' else [(1, 1), (1, 2), (1, 3), (1, 4), (2, 2), (2, 3), (3, 2)]):
         gs.append(Group('%s.tGswSymDecrypt.k=%d.l=%d' % (tag, K, L), 'c03_encrypt.c', 'h_tGswSymDecrypt', extract=[(TG, 'tGswSymDecrypt')], loops=True,
-                        defines={'H_TGSWDEC': None, 'VERIF_K': K, 'VERIF_L': L}, cbmc=['--memory-leak-check'], instance={'k': K, 'l': L}))
+                        defines={'H_TGSWDEC': None, 'VERIF_K': K, 'VERIF_L': L}, cbmc=['--memory-leak-check'], instance={'k': K, 'l': L}, replay='tgswdec'))
     # noiseless trivial samples: all-zero mask, b = mu (C14 contract enforced on the real body)
     gs.append(Group(tag + '.dep.lweNoiselessTrivial', 'c14_lwe.c', 'h_lweNoiselessTrivial', extract=[(LF, 'lweNoiselessTrivial')], enforce='lweNoiselessTrivial', loops=True))
     return gs
@@ -662,7 +665,7 @@ def c07_groups(tier, tag='C07'):
     for (t_, bb_) in ([(8, 2), (2, 1), (3, 3), (1, 2)] if tier == 'quick' else [(8, 2), (2, 1), (3, 3), (1, 4), (15, 2), (4, 4), (5, 3), (16, 1), (1, 1), (2, 5)]):
         gs.append(Group('%s.lweCreateKeySwitchKey.unbounded.t=%d.basebit=%d' % (tag, t_, bb_), 'c03_encrypt.c', 'h_createKeySwitchKey_unbounded',
                         extract=[(KS, 'lweCreateKeySwitchKey', S_)], loops=True, defines={'H_KSCREATE_U': None, 'VERIF_KS_T': t_, 'VERIF_KS_BB': bb_},
-                        gen={'ksc.inc': ksc_inc(t_, bb_)}, timeout=1500, instance={'t': t_, 'basebit': bb_, 'n': 'symbolic', 'index': 'symbolic', 'alpha': 'symbolic in [0,1]'}))
+                        gen={'ksc.inc': ksc_inc(t_, bb_)}, timeout=1500, instance={'t': t_, 'basebit': bb_, 'n': 'symbolic', 'index': 'symbolic', 'alpha': 'symbolic in [0,1]'}, replay='kscreate'))
         gs[-1].arb_bound = 1                                       # bounded arbiter: n = 1 (each unwound draw iteration adds an addressed object and IEEE operations)
         gs[-1].arb_unwind = t_ * ((1 << bb_) - 1) + 3
     for K in ([1, 2] if tier == 'quick' else [1, 2, 3]):
